@@ -1,7 +1,7 @@
 //! Driving the real connection handler (hook) over a scripted stream, with structural
 //! termination detection, plus the harness-side description of a byte stream (frames,
 //! segmentations, effective reads) and the model of the batch collectors that is used only to
-//! recognise known finding KF-C04-01.
+//! recognise the latent collector defect KF-C04-L1 (not listed; the collectors never engage in the current tree).
 
 use redis_sim::production::{verif_hooks, ConnectionConfig, ShardedActorState};
 use serde::{Deserialize, Serialize};
@@ -379,7 +379,7 @@ pub fn run_handler(chunks: Vec<Vec<u8>>, cfg: &Cfg, shards: usize, io: Io, turn_
 }
 
 // ---------------------------------------------------------------------------------------
-// model of the batch collectors (used only to recognise KF-C04-01)
+// model of the batch collectors (used only to recognise the latent defect KF-C04-L1)
 // ---------------------------------------------------------------------------------------
 
 #[derive(Clone, Copy, Debug, PartialEq, Eq)]
